@@ -19,7 +19,16 @@ import traceback
 from . import tlc
 
 VERIF = tlc.VERIF
+# Evidence and replay files go under /verif unless VERIF_OUT names another directory (used only by
+# tools/seeds.py, which runs the checks against a patched scratch worktree selected with PYTHONPATH
+# and must not overwrite the evidence of the real tree).
+OUT = os.environ.get("VERIF_OUT") or VERIF
 LEVELS = {}
+
+
+def tree_under_test() -> str:
+    import typelib
+    return os.path.dirname(os.path.dirname(os.path.dirname(os.path.abspath(typelib.__file__))))
 
 
 @dataclasses.dataclass
@@ -99,6 +108,7 @@ def write_evidence(ctx: Ctx, out: Outcome, wall: float, nviol: int, known: dict)
     if known:
         cov["known_findings_seen"] = known
     cov.update({k: v for k, v in out.notes.items() if k not in cov})
+    cov["tree_under_test"] = tree_under_test()
     ev = {
         "property_id": ctx.pid,
         "tier": ctx.tier,
@@ -109,15 +119,15 @@ def write_evidence(ctx: Ctx, out: Outcome, wall: float, nviol: int, known: dict)
         "wall_s": round(wall, 2),
         "violations": nviol,
     }
-    os.makedirs(os.path.join(VERIF, "evidence"), exist_ok=True)
-    path = os.path.join(VERIF, "evidence", f"{ctx.pid}.json")
+    os.makedirs(os.path.join(OUT, "evidence"), exist_ok=True)
+    path = os.path.join(OUT, "evidence", f"{ctx.pid}.json")
     with open(path, "w") as fh:
         json.dump(ev, fh, indent=1, default=str, sort_keys=True)
         fh.write("\n")
 
 
 def write_replay(pid: str, v: Violation) -> str:
-    d = os.path.join(VERIF, "replays", pid)
+    d = os.path.join(OUT, "replays", pid)
     os.makedirs(d, exist_ok=True)
     path = os.path.join(d, v.key() + ".json")
     with open(path, "w") as fh:
